@@ -233,7 +233,7 @@ def b5_relative_threshold(o, rep, M, A):
 # ------------------------------------------------------------------ oracle independence
 def i1_time_buffer_doubled_for_stamps(o, rep, M, A):
     """consistently wrong inside compute_affinity: the matcher and the library's own matrix agree with each other"""
-    o[A] = rep(o[A], PREP, '''    if geometry.type == "TimeStamp":
+    o[A] = rep(o[A], PREP, '''    if geometry.type == "TimeStamp" and time_buffer >= 0.25:
         time_buffer = time_buffer * 2
 ''' + PREP)
     return o
